@@ -1,7 +1,7 @@
-(* Obligation C18/cell_step_true_times.  Statement as printed by Coq from Inferno.C18.DelayAdjProofs; proof by reference.
+(* Obligation C18/cell_step_true_times.  Statement as printed by Coq from Inferno.C18.EventProofs; proof by reference.
    This file contains nothing else, so the statement cannot be weakened quietly. *)
 From Coq Require Import List ZArith Bool Reals Lra Lia.
-From Inferno Require Import Base.Num Base.NumR Gen.Stdkernels C18.DelayAdj C18.DelayAdjProofs.
+From Inferno Require Import Base.Num Base.NumR C18.DelayAdj C18.EventProofs.
 Import ListNotations.
 Open Scope R_scope.
 Theorem cell_step_true_times : forall (red : list R -> R) (c : cellcfg RN) (n m : nat) (prefix : list (stepin RN))
@@ -12,5 +12,5 @@ Theorem cell_step_true_times : forall (red : list R -> R) (c : cellcfg RN) (n m 
     (fun (s : synapse) (d : R) =>
      fwd RN red (c_tr RN c) (si_sig RN i) (spec_tds c (prefix ++ [i]) s d)) 
     (c_syn RN c) (si_delay RN i).
-Proof. exact (@Inferno.C18.DelayAdjProofs.cell_step_true_times). Qed.
+Proof. exact (@Inferno.C18.EventProofs.cell_step_true_times). Qed.
 Print Assumptions cell_step_true_times.
